@@ -145,6 +145,7 @@ pub struct Monitors {
     pub snapshot_profile: bool,
     pub ready_models: Vec<persist::ReadyModel>,
     pub tmp_pre_match: Option<bool>,
+    pub tmp_acked_beyond: Option<(u64, u64)>,
     pub tmp_flow_before: Option<flow::FlowRec>,
     pub flow_event_all: Vec<bool>,
     pub batch_dirty: Vec<bool>,
@@ -154,6 +155,8 @@ pub struct Monitors {
     pub read_released_by_requeued: DetSet<Vec<u8>>,
     pub focus: Option<&'static str>,
     pub fatal: bool,
+    /// (term, node): leaderships lost in a crash before the term was persisted or any message left
+    pub volatile_only_leaderships: DetSet<(u64, u64)>,
 }
 
 const NO_TERM: u64 = u64::MAX;
@@ -190,6 +193,7 @@ impl Monitors {
             snapshot_profile: false,
             ready_models: Vec::new(),
             tmp_pre_match: None,
+            tmp_acked_beyond: None,
             tmp_flow_before: None,
             flow_event_all: Vec::new(),
             batch_dirty: Vec::new(),
@@ -197,6 +201,7 @@ impl Monitors {
             read_released_by_requeued: DetSet::default(),
             focus: None,
             fatal: false,
+            volatile_only_leaderships: DetSet::default(),
         }
     }
 
@@ -342,6 +347,18 @@ impl Monitors {
     /// had been sent to anybody, its later arrival there conflicts with the new one and is
     /// reported then.
     pub fn before_crash(&mut self, nodes: &[Node], v: usize) {
+        // a leadership that existed only in the volatile state of the crashing node: its term
+        // was never persisted and no message of that term ever left the node (finding F13)
+        if let Some(raw) = nodes[v].raw.as_ref() {
+            if raw.raft.state == StateRole::Leader {
+                let t = raw.raft.term;
+                let dterm = nodes[v].store.with(|s| s.dur.hs.term);
+                if dterm < t && self.g.per[v].told_term < t {
+                    self.volatile_only_leaderships.insert((t, nodes[v].id));
+                    self.stats.inc("c02.leaderships_lost_before_persisting_term");
+                }
+            }
+        }
         if !self.g.per[v].shadow_valid {
             return;
         }
@@ -597,6 +614,8 @@ impl Monitors {
             if x.get_msg_type() == MessageType::MsgSnapshot {
                 let meta = x.get_snapshot().get_metadata();
                 self.tmp_pre_match = Some(self.g.per[v].shadow.term(meta.index) == Some(meta.term));
+                // acknowledgements this node has released for entries beyond the snapshot index
+                self.tmp_acked_beyond = self.g.per[v].told_ack.range(meta.index + 1..).next().map(|(i, t)| (*i, *t));
             }
         }
         if let Op::ReportSnapshot(u, _) = op {
@@ -666,10 +685,15 @@ impl Monitors {
                 self.stats.inc("c02.leaders_elected");
             }
             Some(&other) if other != id => {
+                let volatile = self.volatile_only_leaderships.contains(&(post.term, other));
                 self.violation(
                     "C02",
                     "one-leader-per-term",
-                    "two-leaders-same-term".into(),
+                    if volatile {
+                        "two-leaders-same-term/first-leadership-never-persisted-nor-communicated".into()
+                    } else {
+                        "two-leaders-same-term".into()
+                    },
                     format!("nodes {} and {} are both leader of term {}", other, id, post.term),
                     id,
                     step,
